@@ -230,6 +230,7 @@ func main() {
 
 	// ---- carry coverage: record the value of every carry / borrow bit of the Fiat files ----------------------
 	var covNames []string
+	var covProp []int
 
 	if carryCov {
 		for _, fp := range []struct{ dir, file, pkg string }{
@@ -238,7 +239,7 @@ func main() {
 			path := cur[fp.dir][fp.file]
 			gen := filepath.Join(*out, "cov_"+fp.file)
 
-			if err := instrumentCarries(path, gen, fp.pkg, &covNames); err != nil {
+			if err := instrumentCarries(path, gen, fp.pkg, &covNames, &covProp); err != nil {
 				die("carry instrumentation of %s: %v", path, err)
 			}
 
@@ -260,6 +261,10 @@ func main() {
 	nb.WriteString("}\n\n// CovNames maps carry-coverage ids to function.variable names. Generated by mkoverlay.\nvar CovNames = []string{\n")
 	for _, n := range covNames {
 		fmt.Fprintf(&nb, "\t%q,\n", n)
+	}
+	nb.WriteString("}\n\n// CovPropSites lists the carry-coverage ids that have a non-constant carry-in. Generated by mkoverlay.\nvar CovPropSites = []int{")
+	for _, n := range covProp {
+		fmt.Fprintf(&nb, "%d, ", n)
 	}
 	nb.WriteString("}\n\n")
 	fmt.Fprintf(&nb, "// Variant is the build variant this binary was made for.\nconst Variant = %q\n", *variant)
@@ -485,7 +490,7 @@ func instrument(path, gen, pkgName string, names *[]string) (bool, error) {
 // instrumentCarries writes a copy of a Fiat file in which every `v, c = bits.Add64(...)` / `bits.Sub64(...)` is followed
 // by verifrt.Cov(id, c): the harness then knows, for every carry and borrow bit of the generated arithmetic, whether
 // its alphabets ever drove it to 0 and to 1.
-func instrumentCarries(path, gen, pkgName string, names *[]string) error {
+func instrumentCarries(path, gen, pkgName string, names *[]string, propSites *[]int) error {
 	fset := token.NewFileSet()
 
 	f, err := parser.ParseFile(fset, path, nil, parser.SkipObjectResolution)
@@ -534,6 +539,20 @@ func instrumentCarries(path, gen, pkgName string, names *[]string) error {
 				Fun:  &ast.SelectorExpr{X: ast.NewIdent("verifrt"), Sel: ast.NewIdent("Cov")},
 				Args: []ast.Expr{&ast.BasicLit{Kind: token.INT, Value: strconv.Itoa(id)}, ast.NewIdent(c.Name)},
 			}})
+
+			// operands, for the "raised only by the carry-in" class; skipped where the carry-in is the constant 0
+			if len(call.Args) == 3 && !isZeroLit(call.Args[2]) {
+				fn := "CovAdd"
+				if sel.Sel.Name == "Sub64" {
+					fn = "CovSub"
+				}
+
+				*propSites = append(*propSites, id)
+				out = append(out, &ast.ExprStmt{X: &ast.CallExpr{
+					Fun:  &ast.SelectorExpr{X: ast.NewIdent("verifrt"), Sel: ast.NewIdent(fn)},
+					Args: []ast.Expr{&ast.BasicLit{Kind: token.INT, Value: strconv.Itoa(id)}, call.Args[0], call.Args[1], call.Args[2]},
+				}})
+			}
 		}
 
 		fd.Body.List = out
@@ -551,6 +570,27 @@ func instrumentCarries(path, gen, pkgName string, names *[]string) error {
 	}
 
 	return os.WriteFile(gen, b.Bytes(), 0o644)
+}
+
+// isZeroLit reports whether e is the literal 0, possibly wrapped in conversions such as uint64(0x0).
+func isZeroLit(e ast.Expr) bool {
+	for {
+		switch x := e.(type) {
+		case *ast.ParenExpr:
+			e = x.X
+		case *ast.CallExpr:
+			if len(x.Args) != 1 {
+				return false
+			}
+
+			e = x.Args[0]
+		case *ast.BasicLit:
+			v, err := strconv.ParseUint(x.Value, 0, 64)
+			return err == nil && v == 0
+		default:
+			return false
+		}
+	}
 }
 
 func stripDocs(f *ast.File) *ast.File {
